@@ -275,3 +275,74 @@ def lit(n):
     if n == -(1 << 63):
         return "(0-9223372036854775807-1)"
     return "(0-%d)" % (-n)
+
+
+# ------------------------------------------------------------------ native lexing reference (/verif/lexreplay)
+
+LEX_SRC = os.path.join(frontend.VERIF, "lexreplay")
+
+
+def build_lex(profile="dev", repo=None):
+    """Binary that lexes with the crate's own src/lexer/token.rs (compiled in unchanged); cached by tree hash."""
+    repo = repo or frontend.REPO
+    th = frontend.tree_hash(repo)
+    rh = hashlib.sha256()
+    for f in ("Cargo.toml.in", "src/main.rs.in"):
+        rh.update(open(os.path.join(LEX_SRC, f), "rb").read())
+    key = "%s-%s" % (th, rh.hexdigest()[:12])
+    b = os.path.join(frontend.CACHE, "replay-bin", key, "lex-" + profile, "verif_lexreplay")
+    if os.path.exists(b):
+        return b
+    scratch = frontend.make_scratch(repo, "lexreplay")
+    try:
+        rdir = os.path.join(scratch, "_verif_lexreplay")
+        os.makedirs(os.path.join(rdir, "src"))
+        for f, g in (("Cargo.toml.in", "Cargo.toml"), ("src/main.rs.in", "src/main.rs")):
+            open(os.path.join(rdir, g), "w").write(open(os.path.join(LEX_SRC, f)).read().replace("@REPO@", scratch))
+        env = dict(os.environ)
+        env["CARGO_NET_OFFLINE"] = "true"
+        env["CARGO_TARGET_DIR"] = os.path.join(frontend.CACHE, "target-lexreplay")
+        env.pop("RUSTFLAGS", None)
+        lock = os.path.join(repo, "Cargo.lock")
+        cmd = ["cargo", "build", "--offline", "-q"] + (["--release"] if profile == "release" else [])
+        r = None
+        for with_lock in (True, False):
+            lk = os.path.join(rdir, "Cargo.lock")
+            if with_lock and os.path.exists(lock):
+                shutil.copy(lock, lk)
+            elif os.path.exists(lk):
+                os.remove(lk)
+            r = subprocess.run(cmd, cwd=rdir, env=env, stdout=subprocess.PIPE, stderr=subprocess.PIPE, text=True)
+            if r.returncode == 0:
+                break
+        if r.returncode != 0:
+            raise RuntimeError("lexer reference build failed:\n%s" % r.stderr[-3000:])
+        src = os.path.join(env["CARGO_TARGET_DIR"], "release" if profile == "release" else "debug", "verif_lexreplay")
+        os.makedirs(os.path.dirname(b), exist_ok=True)
+        shutil.copy(src, b + ".tmp%d" % os.getpid())
+        os.replace(b + ".tmp%d" % os.getpid(), b)
+    finally:
+        shutil.rmtree(scratch, ignore_errors=True)
+    return b
+
+
+def lex_native(items, profile="dev", repo=None, timeout=120):
+    """items: [(mode 'header'|'body', bytes)] -> [list of (kind, start, end) | 'PANIC' | 'INVALID']"""
+    b = build_lex(profile, repo)
+    inp = "".join("%s %s\n" % (mode, bytes(data).hex()) for mode, data in items)
+    r = subprocess.run([b], input=inp, stdout=subprocess.PIPE, stderr=subprocess.PIPE, text=True, timeout=timeout)
+    out = []
+    for line in r.stdout.split("\n"):
+        if not line:
+            continue
+        if line.startswith("TOKENS"):
+            toks = []
+            for w in line.split(" ")[1:]:
+                k, s, e = w.rsplit(":", 2)
+                toks.append((k, int(s), int(e)))
+            out.append(toks)
+        else:
+            out.append(line.strip())
+    if len(out) != len(items):
+        raise RuntimeError("lexer reference produced %d answers for %d inputs: %s" % (len(out), len(items), r.stderr[-500:]))
+    return out
